@@ -33,13 +33,30 @@ the stacked branch so that autopack combines packs, are part of the operation al
 every key (theorem pack_preserves_stackable); the oracle also requires that the tip can be fetched from the stacked
 repository opened WITHOUT its fallback into a mirror of the fallback.
 
-Mutants this was built against: see the list at the end of this docstring.
- S1  _ensure_fallback_inventories returns immediately (no parent inventories on commit)        O
- S2  get_missing_parent_inventories returns an empty set                                        O
- S3  _check_new_inventories does not look at text keys (accepts a write group without a text)  O (sabotage accepted)
- S4  RepoFetcher does not send the second stream for missing keys                               O
- S5  get_missing_parent_inventories looks at inventories *with* fallbacks                       O
- H   harmless rewrite in _ensure_fallback_inventories                                            clean
+Any history (theorems run_preserves_good / reachable_readable / push_tip_readable): `good` = stackable + topo +
+invsAgree + invsHaveRevs is proved invariant under every sequence of fetch / push / commit / pack whose steps satisfy
+the decidable preconditions `fetchOk` / `commitOk` in the state they are applied to.  For EVERY real fetch and commit
+the driver evaluates every hypothesis (`hfetch` / `hcommit`: closed, agreeSrcSt, agreeFbSrc, srcSuppliesM,
+exclusionLocal, topoSrc, noOrphanSrc, fetchOk, good, stackableW, completeFb, noOrphanFb / fresh, parentsSmaller,
+commitCovers, commitOk); they are counted in the evidence (`hyp:*`) and what the theorems then promise is checked
+against the model's own result.  `stackableW` (the invariant the code keeps by design: inventory local, every entry
+in a local inventory of a present parent or its text local) is preserved WITHOUT srcSuppliesM
+(fetch_into_stacked_preservesW) and suffices for reading (stackableW_readable).
+
+Operation alphabet also has: find_ghosts=True fetches, the source D opened through bzr:// (mode remote-src), commits
+through a bzr:// stacked branch (RemoteRepository commit builder), one forced fetch of not-yet-stored revisions and one
+forced sabotaged insertion per scenario (kind rotating: inventories / texts / nothing), the pushed / fetched revision
+must be present and readable afterwards, and the fixed scenario `ghostsrc`: a fetch from a source in which the
+fallback's tip is a ghost.  serve_alone (tip streamed from the stacked repository opened without its fallback) runs
+after operations that stored revisions through a stream, after packs and non-plain commits, and at the end of every
+scenario.  Timeouts / full disks raise InfraError (exit 2), never a VIOLATION.
+
+Finding kept as a family: `parent-inventory-not-local-when-source-lacks-it` — a fetch from a source that holds
+neither the revision nor the inventory of a parent living in the fallback is accepted (no text is missing) and
+leaves that parent inventory not stored locally: `stackable` as the property words it is false, `stackableW` and
+readability hold (theorem srcSupplies_needed_witness is the model-level counterpart).
+
+Mutants this was built against:
 """
 import hashlib
 import os
@@ -53,13 +70,20 @@ THEOREMS = [
     "stackable_readable", "commit_to_stacked_preserves", "commit_refused_iff", "fetch_into_stacked_preserves",
     "check_accepts_stackable", "refusal_iff_stackable", "refusal_alone_witness",
     "pack_preserves_lookups", "pack_preserves_stackable",
+    "srcSupplies_imp", "step_preserves_good", "run_preserves_good", "empty_good", "reachable_readable",
+    "push_tip_readable", "stackable_weaken", "stackableW_readable", "fetch_into_stacked_preservesW",
+    "srcSupplies_needed_witness", "refusal_multi_witness",
 ]
-RULE = ("scenario = (seed, history, split point k, transport mode); case = one operation (fetch / push / commit / "
-        "sabotaged insert) on the stacked branch in its current state; non-trivial = the operation stores at least "
+RULE = ("scenario = (seed, history, split point k, transport mode local / target over bzr:// / source over bzr://); case "
+        "= one operation (fetch with or without find_ghosts / push / commit locally or over bzr:// / pack / sabotaged "
+        "insert) on the stacked branch in its current state; non-trivial = the operation stores at least "
         "one revision locally whose parent lives only in the fallback or is a ghost, or is refused; distinct by "
         "(abstract local store, abstract fallback, operation)")
 ASSUMPTIONS = [
-    "2a stacked on 2a; one fallback level",
+    "2a stacked on 2a; one fallback level; sources are complete repositories (not themselves stacked)",
+    "every hypothesis of the sequence theorems (fetchOk / commitOk / good) is evaluated by the model on every real "
+    "fetch and commit and counted (evidence hyp:*); cases where one is false (merge of a revision only D has: the "
+    "stack then has a ghost the source holds) are covered by tie and oracle only",
     "what the CHK filter drops for a revision is shared with one of that revision's own parents (entries a commit "
     "introduces carry the committing revision's id) — evaluated on every case by the model (`exclusionLocal`)",
 ]
@@ -193,51 +217,141 @@ def enc_world(W, extra_states=(), extra_revs=()):
 
 
 # ------------------------------------------------------------------ operations
-def op_fetch(ctx, W, case, rev, via, push, batch, expect):
-    """fetch `rev` from D into the stacked repository (repository fetch or Branch.push)"""
+def _reg(W, branch):
+    """remember every remote object of `branch` so that the server can be stopped without waiting for idle
+    connections (the stacked branch opens its fallback through the server as well)"""
+    repo = branch.repository
+    W.server.opened.append(repo)
+    for fbr in getattr(repo, "_fallback_repositories", []):
+        if hasattr(fbr, "controldir"):
+            W.server.opened.append(fbr)
+
+
+def _infra(e, where):
+    """timeouts / full disks are the machine, not the code: exit 2"""
+    c03._reraise_infra(e, where)
+
+
+FETCH_HYPS = ("closed", "agreeSrcSt", "agreeFbSrc", "srcSuppliesM", "exclusionLocal", "topoSrc", "noOrphanSrc",
+              "fetchOk", "good", "stackableW", "completeFb", "noOrphanFb")
+COMMIT_HYPS = ("fresh", "parentsSmaller", "commitCovers", "commitOk", "good", "stackableW", "completeFb", "noOrphanFb")
+
+
+def count_hyps(ctx, kind, names, reply, case, real_ok):
+    """the model evaluated every hypothesis of the theorems for this real case: count them, and check what the
+    theorems then promise about the model's own result"""
+    parts = reply.split(" | ")
+    flags = parts[0].split() + parts[1].split()
+    if len(flags) != len(names) or any(f not in ("T", "F") for f in flags):
+        ctx.mismatch(case, "hypothesis flags", reply)
+        return
+    h = dict(zip(names, flags))
+    for n, f in h.items():
+        ctx.count("hyp:%s:%s=%s" % (kind, n, f))
+    allok = h.get("fetchOk", h.get("commitOk")) == "T" and h["good"] == "T" and h["completeFb"] == "T" and h["noOrphanFb"] == "T"
+    ctx.count("hyp:%s:all-hypotheses-hold=%s" % (kind, "T" if allok else "F"))
+    if kind == "fetch" and len(parts) > 2 and parts[2] != "-":
+        post = parts[2].split()
+        if allok and post[:2] != ["T", "T"]:
+            ctx.mismatch(case, "theorem fetch_into_stacked_preserves", "model: hypotheses hold but stackable after = %s" % post)
+        if allok and real_ok and post[2:] != ["T", "T"]:
+            ctx.mismatch(case, "theorem push_tip_readable", "model: hypotheses hold but tip present/readable = %s" % post[2:])
+        if h["closed"] == "T" and h["agreeSrcSt"] == "T" and h["exclusionLocal"] == "T" and h["stackableW"] == "T" \
+                and post[1] != "T":
+            ctx.mismatch(case, "theorem fetch_into_stacked_preservesW", "model: stackableW after = %s" % post[1])
+
+
+def op_fetch(ctx, W, case, rev, via, push, batch, expect, fg=False, srcvia="local", src_name="d"):
+    """fetch `rev` from D into the stacked repository (repository fetch or Branch.push); `via` = how the
+    stacked target is opened, `srcvia` = how the source D is opened (local / bzr://), fg = find_ghosts"""
     from breezy.branch import Branch
     from breezy import errors
-    st0, fb, d, nb, roots = enc_world(W, extra_revs=[rev])
+    src_path = os.path.join(W.root, src_name)
+    if src_name == "d":
+        st0, fb, d, nb, roots = enc_world(W, extra_revs=[rev])
+    else:                       # another source: the model's `src` is that repository
+        st0, fb, d0, _nb, _roots = enc_world(W, extra_revs=[rev])
+        d = local_state(src_path)
+        nb = c03.numbering([st0, fb, d0, d], extra_revs=[rev])
+        roots = {v[0] for s_ in (st0, fb, d0, d) for v in s_["roots"].values()}
     outcome = "ok"
     try:
         if via == "remote":
             tb = Branch.open(W.server.url("st"))
-            W.server.opened.append(tb.repository)
+            _reg(W, tb)
         else:
             tb = Branch.open(W.st_path)
         if push:
-            sb = Branch.open(W.d_path)
+            sb = Branch.open(W.server.url(src_name)) if srcvia == "remote" else Branch.open(src_path)
+            if srcvia == "remote":
+                _reg(W, sb)
             sb.push(tb, stop_revision=rev, overwrite=True)
         else:
-            tb.repository.fetch(c03.open_repo(W.d_path), revision_id=rev)
+            srepo = W.server.open_repo(src_name) if srcvia == "remote" else c03.open_repo(src_path)
+            tb.repository.fetch(srepo, revision_id=rev, find_ghosts=fg)
     except errors.NoSuchRevision:
         outcome = "E:NoSuchRevision"
     except Exception as e:
+        _infra(e, "C08 fetch")
         outcome = "E:%s:%s" % (type(e).__name__, str(e)[:200])
     st1 = local_state(W.st_path)
     new = set(st1["revs"]) - set(st0["revs"])
-    ctx.count("op:%s:%s" % ("push" if push else "fetch", via))
+    ctx.count("op:%s:%s%s%s%s" % ("push" if push else "fetch", via, ":src-bzr" if srcvia == "remote" else "",
+                                  ":find_ghosts" if fg else "", "" if src_name == "d" else ":from-" + src_name))
     ctx.count("stored-revisions:%d" % min(len(new), 8))
     boundary = any((p not in st1["revs"]) for r in new for p in st1["revs"][r][0])
     ctx.case(dict(case, n_local=len(st0["revs"]), n_fb=len(fb["revs"]), stored=len(new)), nontrivial=boundary)
     if outcome != "ok" and rev in d["revs"]:
         ctx.violation(case, "%s into the stacked branch failed: %s" % ("push" if push else "fetch", outcome))
-    oracle(ctx, W, case, st1, fb, expect)
+    if outcome == "ok" and rev in d["revs"]:
+        # push never leaves the tip unreconstructable: the requested revision is there and readable
+        for bad in tip_readable(W, rev):
+            ctx.violation(case, bad)
+    oracle(ctx, W, case, st1, fb, expect, alone=bool(new), src=d)
     x = c03.probe_exclusion()
-    line = "sfetch %s F %d %s %s %s" % (x, nb.r(rev), enc3(d, nb, roots), enc3(st0, nb, roots), enc3(fb, nb, roots))
+    args = "%s %s %d %s %s %s" % (x, "T" if fg else "F", nb.r(rev), enc3(d, nb, roots), enc3(st0, nb, roots),
+                                  enc3(fb, nb, roots))
+    line = "sfetch " + args
     if outcome == "ok":
-        impl = "ok %s %s T T T" % (",".join(str(v) for v in sorted(nb.r(r) for r in new)) or "-", after3(st1, nb, roots))
+        # the invariant before / after is evaluated on the REAL states (the third flag is the model-side
+        # assumption `exclusionLocal`, which must hold for every generated history)
+        impl = "ok %s %s %s %s T" % (",".join(str(v) for v in sorted(nb.r(r) for r in new)) or "-",
+                                    after3(st1, nb, roots), "F" if stackable_direct(st0, fb) else "T",
+                                    "F" if stackable_direct(st1, fb) else "T")
     else:
         impl = ":".join(outcome.split(":")[:2])
     batch.append((case, line, impl))
+    W.hyps.append(("fetch", FETCH_HYPS, "hfetch " + args, case, outcome == "ok"))
 
 
-def op_commit(ctx, W, case, rng, kind, batch, expect, hist):
-    """commit on the stacked branch: plain / merge of a fallback-only revision / merge of a ghost"""
+def tip_readable(W, rev):
+    from breezy.branch import Branch
+    repo = Branch.open(W.st_path).repository
+    try:
+        with repo.lock_read():
+            if not repo.has_revision(rev):
+                return ["after a successful fetch/push of %r the stacked repository (with its fallback) does not have it" % (rev,)]
+            t = repo.revision_tree(rev)
+            for path, ie in t.iter_entries_by_dir():
+                if ie.kind == "file":
+                    t.get_file_text(path)
+    except Exception as e:
+        _infra(e, "C08 tip read")
+        return ["the fetched/pushed revision %r cannot be reconstructed: %s: %s" % (rev, type(e).__name__, str(e)[:120])]
+    return []
+
+
+def op_commit(ctx, W, case, rng, kind, batch, expect, hist, via="local"):
+    """commit on the stacked branch: plain / merge of a fallback-only revision / merge of a ghost;
+    via="remote": the stacked branch is opened through bzr:// (RemoteRepository commit builder)"""
     from breezy.branch import Branch
     from breezy.branchbuilder import BranchBuilder
     st0, fb, d, nb0, roots0 = enc_world(W)
-    b = Branch.open(W.st_path)
+    if via == "remote":
+        b = Branch.open(W.server.url("st"))
+        _reg(W, b)
+    else:
+        b = Branch.open(W.st_path)
     tip = b.last_revision()
     W.ncommit += 1
     rid = b"s%02d" % W.ncommit
@@ -271,15 +385,16 @@ def op_commit(ctx, W, case, rng, kind, batch, expect, hist):
         bb.build_snapshot(parents, actions, revision_id=rid, message="stacked commit %d" % W.ncommit,
                           timestamp=1700000000 + W.ncommit, timezone=0, committer="S <s@example.com>")
     except Exception as e:
+        _infra(e, "C08 commit")
         outcome = "E:%s:%s" % (type(e).__name__, str(e)[:160])
     st1 = local_state(W.st_path)
-    ctx.count("op:commit:" + kind)
+    ctx.count("op:commit:" + kind + (":bzr" if via == "remote" else ""))
     ctx.count("commit-outcome:" + ":".join(outcome.split(":")[:2]))
     ctx.case(dict(case, kind=kind, parents=[p.decode() for p in parents], outcome=outcome.split(":")[:2]),
              nontrivial=True)
     if outcome == "ok":
         expect[rid] = tree
-        oracle(ctx, W, case, st1, fb, expect)
+        oracle(ctx, W, case, st1, fb, expect, alone=(kind != "plain"))
     else:
         if all(p in st0["revs"] or p in fb["revs"] for p in parents):
             ctx.violation(case, "a commit on the stacked branch whose parents are all available failed: %s" % outcome)
@@ -298,9 +413,11 @@ def op_commit(ctx, W, case, rng, kind, batch, expect, hist):
         newt = ";".join("%d.%d.%d" % (nb.f(fid), nb.r(rv), c03._tok(hashlib.sha1(t).hexdigest().encode()))
                         for (fid, rv), t in sorted(st1["texts"].items())
                         if (fid, rv) not in st0["texts"] and fid not in roots) or "-"
-        line = "scommit %d %s %s %s %s %s" % (nb.r(rid), rec, inv, newt, enc3(st0, nb, roots), enc3(fb, nb, roots))
+        args = "%d %s %s %s %s %s" % (nb.r(rid), rec, inv, newt, enc3(st0, nb, roots), enc3(fb, nb, roots))
+        line = "scommit " + args
         impl = "ok %s T" % after3(st1, nb, roots)
         batch.append((case, line, impl))
+        W.hyps.append(("commit", COMMIT_HYPS, "hcommit " + args, case, True))
     elif outcome != "ok":
         # which refusal? the model is asked with the parents the commit named and an empty inventory
         nb = c03.numbering([st0, fb, d], extra_revs=[rid] + parents)
@@ -311,7 +428,7 @@ def op_commit(ctx, W, case, rng, kind, batch, expect, hist):
         batch.append((case, line, impl))
 
 
-def op_sabotage(ctx, W, case, rng, rev, batch, expect):
+def op_sabotage(ctx, W, case, rng, rev, batch, expect, what=None):
     """insert the stream of a fetch of `rev` with one record removed, through the real sink"""
     from breezy.branch import Branch
     from breezy.repository import InterRepository
@@ -320,7 +437,7 @@ def op_sabotage(ctx, W, case, rng, rev, batch, expect):
     trepo = tb.repository
     srepo = c03.open_repo(W.d_path)
     dropped = [None]
-    what = rng.choice(["texts", "texts", "inventories", "nothing"])
+    what = what or rng.choice(["texts", "texts", "inventories", "nothing"])
     outcome = "ok"
     try:
         with srepo.lock_read(), trepo.lock_write():
@@ -348,6 +465,7 @@ def op_sabotage(ctx, W, case, rng, rev, batch, expect):
                 outcome = "E:Incomplete"
                 trepo.abort_write_group() if trepo.is_in_write_group() else None
     except Exception as e:
+        _infra(e, "C08 sabotage")
         outcome = "E:%s:%s" % (type(e).__name__, str(e)[:200])
     st1 = local_state(W.st_path)
     new = set(st1["revs"]) - set(st0["revs"])
@@ -358,7 +476,7 @@ def op_sabotage(ctx, W, case, rng, rev, batch, expect):
     if refused and (st1["revs"] != st0["revs"]):
         ctx.violation(case, "a refused write group left revisions behind")
     # oracle: whatever was accepted must satisfy the invariant and be readable
-    oracle(ctx, W, case, st1, fb, expect)
+    oracle(ctx, W, case, st1, fb, expect, alone=bool(new))
     # model: the store the write group would have produced = real fetch prediction minus the dropped record
     x = c03.probe_exclusion()
     line0 = "sfetch %s F %d %s %s %s" % (x, nb.r(rev), enc3(d, nb, roots), enc3(st0, nb, roots), enc3(fb, nb, roots))
@@ -418,6 +536,7 @@ def serve_alone(W):
                 if ie.kind == "file":
                     t.get_file_text(path)
     except Exception as e:
+        _infra(e, "C08 serve alone")
         return ["the tip %r cannot be fetched from the stacked repository opened without its fallback into a "
                 "mirror of the fallback: %s: %s" % (tip, type(e).__name__, str(e)[:160])]
     finally:
@@ -425,15 +544,36 @@ def serve_alone(W):
     return []
 
 
-def oracle(ctx, W, case, st, fb, expect):
+FAMILY_UNSUPPLIED = "parent-inventory-not-local-when-source-lacks-it"
+
+
+def classify_invariant_problem(msg, st, fb, src):
+    """family slug for ONE broken-invariant message, or None.  `parent-inventory-not-local-when-source-lacks-it`:
+    the inventory of a parent that lives in the fallback is not stored locally AND the repository the revision
+    was fetched from holds neither that parent's revision nor its inventory (it could not supply it; the sink
+    accepts the write group because no text is missing)."""
+    if src is None or not msg.startswith("inventory of parent "):
+        return None
+    for r, (ps, _m) in st["revs"].items():
+        for p_ in ps:
+            if msg == "inventory of parent %r of %r is not stored locally" % (p_, r):
+                if p_ in fb["revs"] and p_ not in src["revs"] and p_ not in src["invs"] and r in src["revs"]:
+                    return FAMILY_UNSUPPLIED
+    return None
+
+
+def oracle(ctx, W, case, st, fb, expect, alone=True, src=None):
+    """`alone`: also stream the tip from the stacked repository opened without its fallback (a sprout of the
+    fallback per call: done when the operation stored revisions, after packs, and at the end of a scenario)"""
     for b in stackable_direct(st, fb)[:3]:
-        ctx.violation(case, "stacking invariant broken: " + b)
+        ctx.violation(case, "stacking invariant broken: " + b, family=classify_invariant_problem(b, st, fb, src))
     for b in read_with_fallback(W, expect)[:3]:
         ctx.violation(case, b)
-    if not stackable_direct(st, fb):
-        pass
-    for b in serve_alone(W):
-        ctx.violation(case, b)
+    W.alone_pending = not alone
+    if alone:
+        ctx.count("oracle:serve-alone")
+        for b in serve_alone(W):
+            ctx.violation(case, b)
 
 
 def op_pack(ctx, W, case, batch, expect, times=1):
@@ -446,6 +586,7 @@ def op_pack(ctx, W, case, batch, expect, times=1):
             repo = Branch.open(W.st_path).repository
             repo.pack()
     except Exception as e:
+        _infra(e, "C08 pack")
         outcome = "E:%s:%s" % (type(e).__name__, str(e)[:160])
     st1 = local_state(W.st_path)
     ctx.count("op:pack x%d" % times)
@@ -475,7 +616,8 @@ def op_burst(ctx, W, case_of, rng, n, batch, expect, hist):
 # ------------------------------------------------------------------ scenarios
 def run_scenario(ctx, key, stop_at=None):
     """key = (seed, idx, split, mode[, kind]); kind: random | packseq (commit, commit, pack, pack) |
-    burst (12 commits so that autopack combines packs) | fetchpack (fetch, pack, commit, pack)"""
+    burst (12 commits so that autopack combines packs) | fetchpack (fetch, pack, commit, pack) |
+    ghostsrc (fetch from a source in which the fallback's tip is a ghost, then a commit)"""
     seed, idx, split, mode = key[:4]
     kind = key[4] if len(key) > 4 else "random"
     rng = random.Random(repr(("C08", seed, idx)))
@@ -484,6 +626,7 @@ def run_scenario(ctx, key, stop_at=None):
     W.root = env.fresh_dir("c08")
     W.server = None
     W.ncommit = 0
+    W.hyps = []
     batch = []
     try:
         from breezy.branchbuilder import BranchBuilder
@@ -502,12 +645,14 @@ def run_scenario(ctx, key, stop_at=None):
                               committer=rv.committer, revision_id=rv.rid)
             expect[rv.rid] = rv.tree
         dbranch = bb.get_branch()
+        if kind == "random":
+            split = split % (len(revs) - 1)        # at least one revision is left to fetch
         k = revs[split % len(revs)].rid
         ctx.count("split-at:%d/%d" % (split % len(revs) + 1, len(revs)))
         dbranch.controldir.sprout(W.fb_path, revision_id=k)
         from breezy.controldir import ControlDir
         ControlDir.open(W.fb_path).sprout(W.st_path, revision_id=k, stacked=True)
-        if mode == "remote":
+        if mode in ("remote", "remote-src"):
             W.server = c03.Server(W.root)
         step = [0]
 
@@ -524,6 +669,25 @@ def run_scenario(ctx, key, stop_at=None):
                 op_pack(ctx, W, case_of("pack", times=1), batch, expect, 1)
             elif kind == "burst":
                 op_burst(ctx, W, case_of, rng, 12, batch, expect, revs)
+            elif kind == "ghostsrc":
+                # a source in which the fallback's tip k is a GHOST: it holds one revision whose leftmost parent is k
+                # and nothing of k; it cannot supply k's inventory
+                gpath = os.path.join(W.root, "g")
+                os.mkdir(gpath)
+                gb = BranchBuilder(_mod_transport.get_transport(gpath), format=fmt)
+                gtree = {"": (b"g-root", "directory", None)}
+                gacts = [("add", ("", b"g-root", "directory", None))]
+                for i_ in range(rng.randint(1, 3)):
+                    c_ = c03.gen_content(rng)
+                    gacts.append(("add", ("gf%d" % i_, b"gf%d" % i_, "file", c_)))
+                    gtree["gf%d" % i_] = (b"gf%d" % i_, "file", c_)
+                gb.build_snapshot([k], gacts, revision_id=b"t01", message="child of a ghost", timestamp=1700001000,
+                                  timezone=0, committer="G <g@example.com>", allow_leftmost_as_ghost=True)
+                expect[b"t01"] = gtree
+                via_ = "local"
+                op_fetch(ctx, W, case_of("fetch", rev="t01", via=via_, src="g"), b"t01", via_, False, batch, expect,
+                         src_name="g")
+                op_commit(ctx, W, case_of("commit", kind="plain"), rng, "plain", batch, expect, revs)
             elif kind == "fetchpack":
                 rev = rng.choice(later)
                 op_fetch(ctx, W, case_of("fetch", rev=rev.decode(), via="local"), rev, "local", False, batch, expect)
@@ -532,32 +696,55 @@ def run_scenario(ctx, key, stop_at=None):
                 op_pack(ctx, W, case_of("pack", times=2), batch, expect, 2)
             return batch
         nops = rng.randint(4, 7)
+        # every scenario has at least one fetch that stores revisions and one sabotaged insertion whose kind
+        # rotates with the scenario (texts / inventories / nothing dropped)
+        forced_sab, forced_fetch = sorted(rng.sample(range(1, nops), 2))   # sabotage while there is something to send
+        sab_kind = ["inventories", "texts", "nothing"][(2 * idx + ((key[2] - seed - 3 * idx) % 8) // 4) % 3]
+
+        def unfetched():
+            have = set(local_state(W.st_path)["revs"])
+            return [r_ for r_ in later if r_ not in have and r_ != k]
+
         for j in range(nops):
             r = rng.random()
             if j == 0:
                 # the first operation alternates: a commit directly on the fallback's tip / a fetch into the empty stack
                 r = 0.5 if random.Random(repr(("first", seed, idx, split))).random() < 0.5 else 0.1
+            if j == forced_fetch:
+                r = 0.1
+            elif j == forced_sab:
+                r = 0.9
             if r < 0.4:
-                rev = rng.choice(later)
+                cands = unfetched()
+                rev = rng.choice(cands) if cands and (j == forced_fetch or rng.random() < 0.7) else rng.choice(later)
                 via = "remote" if (mode == "remote" and rng.random() < 0.7) else "local"
+                srcvia = "remote" if (mode == "remote-src" and rng.random() < 0.8) else "local"
                 push = rng.random() < 0.4
-                op_fetch(ctx, W, case_of("push" if push else "fetch", rev=rev.decode(), via=via), rev, via, push, batch, expect)
+                fg = (not push) and rng.random() < 0.35
+                op_fetch(ctx, W, case_of("push" if push else "fetch", rev=rev.decode(), via=via, srcvia=srcvia, fg=fg),
+                         rev, via, push, batch, expect, fg=fg, srcvia=srcvia)
             elif r < 0.7:
                 ckind = rng.choice(["plain", "plain", "merge-fallback", "merge-d", "merge-ghost"])
-                op_commit(ctx, W, case_of("commit", kind=ckind), rng, ckind, batch, expect, revs)
+                cvia = "remote" if (mode == "remote" and rng.random() < 0.5) else "local"
+                op_commit(ctx, W, case_of("commit", kind=ckind, via=cvia), rng, ckind, batch, expect, revs, via=cvia)
             elif r < 0.85:
                 t_ = rng.choice([1, 1, 2])
                 op_pack(ctx, W, case_of("pack", times=t_), batch, expect, t_)
             else:
-                rev = rng.choice(later)
-                op_sabotage(ctx, W, case_of("sabotage", rev=rev.decode()), rng, rev, batch, expect)
+                cands = unfetched()
+                rev = rng.choice(cands) if cands else rng.choice(later)
+                what = sab_kind if j == forced_sab else None
+                op_sabotage(ctx, W, case_of("sabotage", rev=rev.decode(), what=what), rng, rev, batch, expect, what=what)
             if stop_at is not None and step[0] >= stop_at:
                 break
             if len(ctx.violations) > W_viol0(W, ctx):
                 ctx.count("scenario-stopped:violation-reported")
                 break
         return batch
+    except env.InfraError:
+        raise
     except Exception as e:
+        c03._reraise_infra(e, "C08 scenario")
         import traceback
         tb = traceback.extract_tb(e.__traceback__)
         where = next(("%s:%s" % (os.path.basename(f.filename), f.name) for f in reversed(tb) if "/breezy/" in f.filename), "?")
@@ -565,9 +752,22 @@ def run_scenario(ctx, key, stop_at=None):
                       % (type(e).__name__, str(e)[:300], where))
         return batch
     finally:
+        try:
+            if getattr(W, "alone_pending", False) and os.path.isdir(getattr(W, "st_path", "")):
+                ctx.count("oracle:serve-alone")
+                for b_ in serve_alone(W):
+                    ctx.violation(dict(key=list(key), step="end"), b_)
+        except env.InfraError:
+            raise
+        except Exception:
+            pass
+        _HYPS.extend(W.hyps)
         if W.server is not None:
             W.server.stop()
         shutil.rmtree(W.root, ignore_errors=True)
+
+
+_HYPS = []
 
 
 def W_viol0(W, ctx):
@@ -583,10 +783,10 @@ def scenario_keys(ctx):
     for h in range(nh):
         splits = range(8) if ctx.thorough() else [(ctx.seed + h * 3) % 8, (ctx.seed + h * 3 + 4) % 8]
         for sp in splits:
-            keys.append((ctx.seed, h, sp, "remote" if (i + ctx.seed) % 3 == 0 else "local"))
+            keys.append((ctx.seed, h, sp, ["remote", "local", "remote-src", "local"][(i + ctx.seed) % 4]))
             i += 1
     # pack / autopack sequences on the stacked repository
-    for j, kind in enumerate(["packseq", "burst", "fetchpack"] * ctx.pick(1, 3)):
+    for j, kind in enumerate(["packseq", "burst", "fetchpack", "ghostsrc"] * ctx.pick(1, 3)):
         keys.append((ctx.seed, 100 + j, (ctx.seed + 2 * j + 1) % 8, "local", kind))
     return keys
 
@@ -598,6 +798,15 @@ def _flush(ctx, batch):
             ctx.traces += 1
             if impl != m:
                 ctx.mismatch(case, impl, m, line=line)
+    if _HYPS and ctx.model_available:
+        outs = ctx.model([h[2] for h in _HYPS])
+        for (kind, names, _line, case, real_ok), m in zip(_HYPS, outs):
+            count_hyps(ctx, kind, names, m, case, real_ok)
+    del _HYPS[:]
+    if os.environ.get("VERIF_DEBUG"):
+        for m in ctx.mismatches:
+            if m:
+                print("MISMATCH", m["case"], "\n  impl ", str(m["impl"])[-200:], "\n  model", str(m["model"])[-200:])
 
 
 def run(ctx):
@@ -614,7 +823,9 @@ def run(ctx):
 
 
 def replay(ctx, case):
-    batch = run_scenario(ctx, tuple(case["key"]), stop_at=case.get("step"))
+    step = case.get("step")
+    batch = run_scenario(ctx, tuple(case["key"]), stop_at=step if isinstance(step, int) else None)
+    _flush(ctx, [])
     out = dict(case=case, oracle_failures=[v["what"] for v in ctx.violations])
     last = [b for b in batch if b[0].get("step") == case.get("step")]
     if last:
